@@ -18,6 +18,7 @@ exhaustive short strings over the delimiter alphabet, the mutations and the rand
 `text` runs are for.
 -/
 import BW.Proofs.Text
+import BW.Proofs.TextStable
 
 namespace BW.Props.C15
 open BW.Model BW.Model.Text BW.Proofs.Text
@@ -75,6 +76,25 @@ theorem short_texts_never_accepted (s : Bytes) (h : (trim s).length < 2) : parse
   unfold parseNode
   simp [h]
 
+/-! ### Whatever they accept prints to text that they accept again as an equal value -/
+
+/-- Nodes: for every input text the node parser accepts, the printed form of the value is accepted again as
+    the same value. -/
+theorem accepted_node_is_stable (s : Bytes) (n : Node) (h : parseNode s = some n) : parseNode (printNode n) = some n :=
+  BW.Proofs.TextStable.node_stable s n h
+
+/-- Predicates (immutable and temporal, any identifier). -/
+theorem accepted_predicate_is_stable (L : Leaf) (hL : LeafLaws L) (s : Bytes) (p : Pred) (h : parsePred L s = some p) :
+    parsePred L (printPred L p) = some p := BW.Proofs.TextStable.pred_stable L hL s p h
+
+/-- Literals of every type: what `Parse` accepts (an int64 is then in range) prints to text it accepts again. -/
+theorem accepted_literal_is_stable (L : Leaf) (hL : LeafLaws L) (s : Bytes) (l : Lit) (h : parseLit L s = some l) :
+    parseLit L (printLit L l) = some l := BW.Proofs.TextStable.lit_stable L hL s l h
+
+/-- Objects (`ParseObject`: node, else literal, else predicate). -/
+theorem accepted_object_is_stable (L : Leaf) (hL : LeafLaws L) (s : Bytes) (o : Obj) (h : parseObject L s = some o) :
+    parseObject L (printObj L o) = some o := BW.Proofs.TextStable.obj_stable L hL s o h
+
 /-! Non-vacuity: the reader stops at the malformed second line and reports one triple. -/
 def idLeaf : Leaf where
   quote := fun i => [dq] ++ i ++ [dq]
@@ -92,3 +112,7 @@ end BW.Props.C15
 #print axioms BW.Props.C15.reader_count_is_loaded
 #print axioms BW.Props.C15.accepted_node_is_well_formed
 #print axioms BW.Props.C15.short_texts_never_accepted
+#print axioms BW.Props.C15.accepted_node_is_stable
+#print axioms BW.Props.C15.accepted_predicate_is_stable
+#print axioms BW.Props.C15.accepted_literal_is_stable
+#print axioms BW.Props.C15.accepted_object_is_stable
